@@ -71,7 +71,7 @@ pub fn run(ctx: &Arc<Ctx>) {
     refmodels::selftest::run(&["sm3", "sm2"]).unwrap_or_else(|e| ctx.machinery_error(format!("reference self-test failed: {}", e)));
     let n = sm2::params().n.clone();
     let p = sm2::params().p.clone();
-    ctx.set_rule("for each base signature (quick 12, thorough 60: keys x nonces x IDs x messages from the C03 alphabets, made by the reference signer): all 512 single-bit flips of r||s; r,s substituted by {0,1,n-1,n,n+1,2^256-1}, s=n-r, swapped; (r+delta, s') completed with the private key so that the verification point is unchanged, delta in {+-1, +-(p-n), +-(2^256-n), +-(2^256-p)}; the public key held as a Jacobian key object (Z in {2, p-1, seeded}); message bit flipped / byte appended / truncated (also on messages of 2^16+5 bytes and 4 MiB+17 bytes, changed at the end, in the middle and after the first block); ID changed (also to normalisation-equivalent spellings: trailing / leading white space, line end, NUL, case; and to IDs longer than 8191 bytes sharing the signer's prefix); key replaced by another key and by -P; every signature length 0..=130 as prefix/extension and constant fills; plus the product RxS of a 12-element boundary alphabet; pre-searched messages whose digest e is >= n; pre-searched signatures with r or s below 2^224 and their r+n / s+n aliases. Oracle: the reference verifier (and 'exactly 64 bytes'); library must return Err whenever it rejects — never Ok, never a panic — and Ok when it accepts.");
+    ctx.set_rule("for each base signature (quick 12, thorough 60: keys x nonces x IDs x messages from the C03 alphabets, made by the reference signer): all 512 single-bit flips of r||s; r,s substituted by {0,1,n-1,n,n+1,2^256-1}, s=n-r, swapped; (r+delta, s') completed with the private key so that the verification point is unchanged, delta in {+-1, +-(p-n), +-(2^256-n), +-(2^256-p)}; the public key held as a Jacobian key object (Z in {2, p-1, seeded}); message bit flipped / byte appended / truncated (also on messages of 2^16+5 bytes and 4 MiB+17 bytes, changed at the end, in the middle and after the first block); ID changed (also to normalisation-equivalent spellings: trailing / leading white space, line end, NUL, case; and to IDs longer than 8191 bytes sharing the signer's prefix); key replaced by another key and by -P; every signature length 0..=130 as prefix/extension and constant fills, and lengths 64 + 256k, 64 + 65536 with neighbours; plus the product RxS of a 12-element boundary alphabet; pre-searched messages whose digest e is >= n; pre-searched signatures with r or s below 2^224 and their r+n / s+n aliases. Oracle: the reference verifier (and 'exactly 64 bytes'); library must return Err whenever it rejects — never Ok, never a panic — and Ok when it accepts.");
     let ds = scalar_alphabet(&n, ctx.seed, "c04d", 2);
     let ks = scalar_alphabet(&n, ctx.seed, "c04k", 1);
     let nbase = ctx.tier.pick(12usize, 160);
@@ -229,6 +229,17 @@ pub fn run(ctx: &Arc<Ctx>) {
                     cases.push(mk(hex::encode(vec![0xffu8; len]), &msg, &id, &pkh, &format!("ff-fill/{}", l)));
                     cases.push(mk(hex::encode(vec![0x01u8; len]), &msg, &id, &pkh, &format!("01-fill/{}", l)));
                 }
+            }
+        }
+        // lengths that equal 64 modulo 256 / 65536 (a length kept in a u8 / u16 would take them for 64), and their neighbours
+        if b < 2 {
+            for len in [191usize, 192, 255, 256, 257, 319, 320, 321, 576, 832, 64 + 65536, 128 + 65536] {
+                let mut big = Vec::with_capacity(len);
+                while big.len() < len {
+                    big.extend_from_slice(&vb);
+                }
+                big.truncate(len);
+                cases.push(mk(hex::encode(&big), &msg, &id, &pkh, "prefix-or-extension/len=64-mod-256-or-neighbour"));
             }
         }
         // boundary product R x S (once)
